@@ -84,12 +84,36 @@ func (c08Engine) Generate(seed uint64, prop, tier string) (json.RawMessage, erro
 			return nextID + uint64(g.Range(1, 5)) // never existed (yet)
 		}
 	}
+	if g.Chance(1, 80) {
+		// cache program: more than 1000 distinct batches are looked up (the read cache starts evicting),
+		// then lookups and successor queries are repeated against the model
+		sc.Tasks = 1
+		n := g.Range(1050, 1400)
+		for i := 0; i < n; i++ {
+			sc.Steps = append(sc.Steps, mkAdd(0))
+		}
+		for _, id := range added {
+			sc.Steps = append(sc.Steps, c08Step{K: "op", T: 0, Op: "get", ID: id})
+		}
+		for i := 0; i < 400; i++ {
+			id := added[g.Intn(len(added))]
+			switch g.Intn(4) {
+			case 0:
+				sc.Steps = append(sc.Steps, c08Step{K: "op", T: 0, Op: "getnext-if-succ", ID: id})
+			case 1:
+				sc.Steps = append(sc.Steps, c08Step{K: "op", T: 0, Op: "del", ID: id})
+			default:
+				sc.Steps = append(sc.Steps, c08Step{K: "op", T: 0, Op: "get", ID: id})
+			}
+		}
+		return json.Marshal(sc)
+	}
 	if kind == 0 {
 		// long sequential program against the model ("between reads": deletes in any order)
 		sc.Tasks = 1
 		n := g.Range(20, 120)
-		if tier == "thorough" && g.Chance(1, 40) {
-			n = g.Range(1200, 2500) // exercises the batch cache eviction path
+		if g.Chance(1, 40) {
+			n = g.Range(2600, 4000) // enough distinct lookups (>1000) to exercise the batch cache eviction path
 		}
 		present := map[uint64]bool{}
 		for i := 0; i < n; i++ {
